@@ -641,6 +641,27 @@ def rule_wrapper(chk, tpl):
                'template-init-signature', node=init, file=TPL, func='AccelerationEval.__init__', detail_bad='%s / self.groups=%s' % (M.arg_names(init), st.get('self.groups')),
                detail_ok='(kernel, equations, particle_arrays, groups); self.groups = groups')
 
+    # new arrays are handed to the *existing* wrapper objects (set_array): the compiled integrator keeps references to these very objects (self.<name> = acceleration_eval.<name>),
+    # a wrapper that is replaced leaves the integrator stepping the old arrays while the accelerations are computed on the new ones
+    from verif_static import norm as N
+    upa = M.find_func(ae, 'update_particle_arrays')
+    par = [a for a in M.arg_names(upa) if a != 'self']
+    defs = N.local_defs(upa.body)
+    loops = [l for l in ast.walk(upa) if isinstance(l, ast.For) and par and compact(l.iter) == par[0] and isinstance(l.target, ast.Name)]
+    okw = False
+    if len(loops) == 1:
+        lv = loops[0].target.id
+        ldefs = N.local_defs(loops[0].body)
+        calls = [c for c in M.calls(loops[0]) if isinstance(c.func, ast.Attribute) and c.func.attr == 'set_array']
+        okw = len(calls) == 1 and [compact(a) for a in calls[0].args] == [lv] and \
+            compact(N.inline(calls[0].func.value, ldefs)) in ('getattr(self,%s.name)' % lv,)
+    rebinding = [c for c in M.calls(upa) if M.call_name(c) == 'setattr'] + \
+        [a for a in ast.walk(upa) if isinstance(a, ast.Assign) and any(isinstance(t_, ast.Attribute) and compact(t_.value) == 'self' for t_ in a.targets)]
+    chk.decide(okw and not rebinding, 'dispatch', 'new-arrays-go-into-the-existing-wrappers', node=upa, file=TPL, func='AccelerationEval.update_particle_arrays',
+               detail_bad='update_particle_arrays does not hand every new array to the existing wrapper (getattr(self, pa.name).set_array(pa))%s: the compiled integrator holds '
+                          'references to the wrapper objects themselves, so after a replacement it keeps stepping the old arrays' % ('; it rebinds attributes of the evaluator' if rebinding else ''),
+               detail_ok='getattr(self, pa.name).set_array(pa) for every array')
+
 
 def main(chk):
     chk.explanation = ('The evaluator template is lowered to the shape of the Cython it emits and parsed with Cython\'s parser. do_group: '
